@@ -149,3 +149,29 @@ func releasesLikeD(in ssa.Instruction, depth int, names ...string) bool {
 		Sep: func(x ssa.Instruction) bool { return releasesLikeD(x, depth-1, names...) }}).Run(nil)
 	return w == ""
 }
+
+// passesLike: the instruction satisfies pred, or is a static call of a module
+// function every path of which (to its return) passes an instruction that
+// does (depth-limited) — a step moved into a helper is still the step.
+func passesLike(in ssa.Instruction, pred func(ssa.Instruction) bool, depth int) bool {
+	if pred(in) {
+		return true
+	}
+	if depth <= 0 {
+		return false
+	}
+	ci, ok := in.(ssa.CallInstruction)
+	if !ok {
+		return false
+	}
+	if _, isGo := in.(*ssa.Go); isGo {
+		return false
+	}
+	callee := ci.Common().StaticCallee()
+	if callee == nil || callee.Blocks == nil || callee.Pkg == nil || !strings.HasPrefix(callee.Pkg.Pkg.Path()+"/", Mod) {
+		return false
+	}
+	w, _ := (&Cut{Fn: callee, Target: func(x ssa.Instruction) bool { _, isRet := x.(*ssa.Return); return isRet },
+		Sep: func(x ssa.Instruction) bool { return passesLike(x, pred, depth-1) }}).Run(nil)
+	return w == ""
+}
